@@ -79,6 +79,21 @@ pub fn configs(prop: &str, thorough: bool) -> Vec<(Cfg, Option<usize>)> {
                 c.inst_must_fail = n.starts_with("overflow");
                 out.push((c, Some(0)));
             }
+            // the minter is itself a genesis holder, rows given in ascending, descending and mixed label order
+            for (n, init) in [
+                ("asc", vec![(0u8, 1u128), (1, 2), (2, 3)]),
+                ("desc", vec![(2, 3), (1, 2), (0, 1)]),
+                ("mixed", vec![(1, 2), (2, 3), (0, 1)]),
+            ] {
+                for m in [0u8, 1, 2] {
+                    let mut c = Cfg::base(&format!("C01/instantiate/minter-is-genesis-holder/{n}/minter-{m}"));
+                    c.actors = vec!["A", "B", "C"];
+                    c.props = p.clone();
+                    c.initial = init.clone();
+                    c.mint = Some((m, None));
+                    out.push((c, Some(0)));
+                }
+            }
             // one account named twice in two spellings (bech32 is case-insensitive as a whole): accepted only
             // if it ends up as one account whose balance the supply counts once
             for (n, init) in [
@@ -494,8 +509,8 @@ pub fn configs(prop: &str, thorough: bool) -> Vec<(Cfg, Option<usize>)> {
                 c.props = p.clone();
                 c.initial = vec![(0, 2), (1, 2), (2, 2)];
                 c.pre_allow = (0..3u8).flat_map(|o| (3..15u8).map(move |sp| (o, sp, 1 + (sp as u128 % 2)))).collect();
-                c.owners = vec![1];
-                c.spenders = vec![3];
+                c.owners = vec![1, 0];
+                c.spenders = vec![3, 0];
                 c.recipients = vec![0];
                 c.amounts = vec![1];
                 c.exps = vec![ExpA::Unset];
